@@ -315,7 +315,29 @@ func genStateful() *rapid.Generator[*ast.Node] {
 	name := rapid.Custom(func(t *rapid.T) *ast.Node { return ast.NameN(rapid.SampledFrom(gen.Names).Draw(t, "n")) })
 	ctxFns := []string{"string", "length", "uppercase", "lowercase", "trim", "number", "abs", "boolean", "keys", "type", "spread"}
 	return rapid.Custom(func(t *rapid.T) *ast.Node {
-		switch rapid.IntRange(0, 25).Draw(t, "shape") {
+		switch rapid.IntRange(0, 28).Draw(t, "shape") {
+		case 24: // a constructor with a literal key next to a computed one (evaluated again and again)
+			return ast.N(ast.Obj, ast.StrN("kind"), ast.StrN("item"), ast.CallN("string", name.Draw(t, "key")), name.Draw(t, "value"))
+		case 25: // the same inside a path step (once per item)
+			return ast.PathN(name.Draw(t, "seq"), ast.N(ast.Obj, ast.StrN("lit"), ast.NumN(1), ast.CallN("string", ast.VarN("")), ast.NumN(2)))
+		case 26: // no names, no variables: the input is read only through a context-defaulting built-in
+			switch rapid.IntRange(0, 7).Draw(t, "ctxform") {
+			case 0:
+				return ast.CallN("substringBefore", ast.StrN("a"))
+			case 1:
+				return ast.N(ast.Cond, ast.CallN("contains", ast.StrN("a")), ast.StrN("has a"), ast.StrN("no a"))
+			case 2:
+				return ast.CallN("power", ast.NumN(2))
+			case 3:
+				return ast.CallN("substring", ast.NumN(1))
+			case 4:
+				return ast.CallN("pad", ast.NumN(5), ast.StrN("*"))
+			case 5:
+				return ast.CallN("split", ast.StrN("a"))
+			case 6:
+				return ast.BinN("&", ast.CallN("substringAfter", ast.StrN("b")), ast.StrN("!"))
+			}
+			return ast.CallN("replace", ast.StrN("a"), ast.StrN("o"))
 		case 22: // an error raised deep inside recursive user-defined calls (whatever it leaves behind must not add up)
 			depth := float64(rapid.IntRange(30, 90).Draw(t, "errDepth"))
 			body := ast.N(ast.Cond, ast.BinN("=", ast.VarN("n"), ast.NumN(0)), ast.BinN("+", ast.VarN("n"), ast.StrN("a")), ast.CallE(ast.VarN("f"), ast.BinN("-", ast.VarN("n"), ast.NumN(1))))
@@ -391,6 +413,22 @@ func isClockDifference(p *ast.Node) bool {
 		!p.C[1].Has(func(n *ast.Node) bool { return n.K == ast.Var && nondetBuiltins[n.S] })
 }
 
+// isTwoKeyConstructor recognises shapes 24/25: a constructor with one literal
+// and one computed key over plain names. Its value is compared as an unordered
+// object, and which of two failing members is reported is sanctioned (Multi).
+func isTwoKeyConstructor(p *ast.Node) bool {
+	obj := p
+	if p.K == ast.Path && len(p.C) == 2 {
+		obj = p.C[1]
+	}
+	if obj.K != ast.Obj || len(obj.C) != 4 || obj.C[0].K != ast.Str {
+		return false
+	}
+	return !p.Has(func(n *ast.Node) bool {
+		return n.K == ast.Wild || n.K == ast.Desc || (n.K == ast.Var && (nondetBuiltins[n.S] || orderExposing[n.S]))
+	})
+}
+
 // c05BareBuiltin recognises shape 21 ($map([..], $f) or x ~> $f) and returns f.
 func c05BareBuiltin(p *ast.Node) string {
 	names := map[string]bool{"join": true, "sum": true, "count": true, "append": true, "reduce": true, "map": true, "merge": true, "string": true, "substringBefore": true}
@@ -414,14 +452,20 @@ func TestC05_Histories(t *testing.T) {
 	rec := begin(t, "C05", "rapid state machine: pools of 1..4 compiled expressions, a third of them carrying Expr-level registered variables/extensions (chain/partial/context-defaulting/lambda/regex/order-by templates and type-chaotic programs without $random/$shuffle/$now/$millis and without map-order-exposing constructs) and 1..3 inputs; actions eval(i,j), evalFresh(i,j), print(i), up to ~25 steps; invariant: outcome is a function of (text, input); String() and the deep dump of the syntax tree are constant; non-trivial = some expression with a call/chain/partial/lambda was evaluated >= 2 times with another evaluation in between; distinct by the texts + inputs + action sequence")
 	defer finish(t, rec)
 	progs := genStateful()
-	docs := gen.Doc(gen.DocOpts{NestedArrays: 0.2})
+	docs := rapid.OneOf(
+		gen.Doc(gen.DocOpts{NestedArrays: 0.2}),
+		gen.Doc(gen.DocOpts{NestedArrays: 0.2}),
+		gen.Doc(gen.DocOpts{NestedArrays: 0.2}),
+		// scalar documents (the context item of a context-defaulting call at top level)
+		rapid.Map(rapid.SampledFrom([]string{`"banana"`, `"abc-a"`, `"b"`, `3`, `10`, `"x a y"`, `""`}), func(s string) val.Value { return val.MustJSON(s) }),
+	)
 	rapidRun(t, rec, 3000, 60000, func(rt *rapid.T) {
 		var c c05Case
 		var asts []*ast.Node
 		ne := rapid.IntRange(1, 4).Draw(rt, "nexprs")
 		for len(c.Texts) < ne {
 			p := ast.Normalize(progs.Draw(rt, "prog"))
-			if !isDeterministic(p) && !isClockDifference(p) {
+			if !isDeterministic(p) && !isClockDifference(p) && !isTwoKeyConstructor(p) {
 				rec.Excluded()
 				continue
 			}
